@@ -667,6 +667,7 @@ func c09(c *Ctx) {
 	c09OwnerCloseDeferred(c)
 	c09LibraryQueuesDrained(c, svcs, listed)
 	c09DatagramEndReported(c)
+	c09HelperWaitsOnExit(c)
 }
 
 // exitChannelsOf: channels whose closed/receive arm guards the return r (range over chan exhausted, v,ok := <-ch with !ok,
